@@ -1,4 +1,4 @@
-"""C13 -- a long-lived project answers like a fresh one (clauses R13.1-R13.7)."""
+"""C13 -- a long-lived project answers like a fresh one (clauses R13.1-R13.8)."""
 from __future__ import annotations
 
 import ast
@@ -16,7 +16,7 @@ EXPLANATION = (
     "cache_observers.  R13.4: FilteredResourceObserver refreshes its change indicator after each reported event.  "
     "R13.5: a handler registered on a *raw* observer that indexes per file either handles folder events or "
     "invalidates wholesale.  R13.6: in the filtered observer every reported resource is the one that was tested "
-    "(guard/action agreement), no report is control-dependent on the failure of another resource's watched-test, and a move covers the parents of both ends.  R13.7 (=R09.7): every element entering the cached file listing is dominated by a negative is_ignored test of that element.  Sufficiency of invalidation for every query is not decided."
+    "(guard/action agreement), no report is control-dependent on the failure of another resource's watched-test, and a move covers the parents of both ends.  R13.7 (=R09.7): every element entering the cached file listing is dominated by a negative is_ignored test of that element.  R13.8: the not-found path of a module lookup stores nothing into the concluded-data cell.  Sufficiency of invalidation for every query is not decided."
 )
 ASSUMPTIONS = ["required event sets per cache are a hand-confirmed table (sa/rules/c13.py REQUIRED) with reasons"]
 
@@ -396,3 +396,30 @@ def check(ctx, res) -> None:
     from .common import file_list_filter_rule
 
     file_list_filter_rule(ctx, res, "R13.7")
+
+    # ---- R13.8 a failed module lookup is not remembered.  Concluded data is dropped when a KNOWN module changes; the
+    # creation of the missing module is not such an event, so a cached miss would outlive it (a fresh project resolves it)
+    n138 = 0
+    for f in sorted(idx.functions.values(), key=lambda f: f.qualname):
+        if f.unit.modname != "rope.base.pynames":
+            continue
+        handlers = [h for t in walk_local(f.node) if isinstance(t, ast.Try) for h in t.handlers
+                    if h.type is not None and "NotFound" in ast.unparse(h.type)]
+        if not handlers:
+            continue
+        cfg = CFG(f.node)
+        setters = [nd for nd in cfg.nodes if nd.kind in ("stmt", "test") and nd.ast is not None and any(
+            isinstance(c.func, ast.Attribute) and c.func.attr == "set" and is_self_attr(c.func.value) for c in calls_in(nd.ast))]
+        if not setters:
+            continue
+        for h in handlers:
+            n138 += 1
+            hn = cfg.node_of_stmt(h)
+            reach = cfg.reachable(hn.id) if hn is not None else set()
+            hit = [nd for nd in setters if nd.id in reach]
+            res.add("R13.8", f"{f.qualname.split('.', 3)[-1]}|no-negative-cache", not hit, f"{f.unit.rel}:{h.lineno}",
+                    "the not-found path stores nothing into the concluded-data cell (the lookup is retried next time)" if not hit else
+                    f"{f.name} stores a value into its cache cell (line {hit[0].lineno}) on the path through `except {ast.unparse(h.type)}`: the miss is "
+                    "remembered, and since creating the missing module invalidates nothing, the long-lived project keeps the import unresolved while a "
+                    "freshly opened project resolves it", function=f.qualname)
+    res.floor("R13.8", "module lookups with a not-found handler next to a cache cell", n138, 1)
